@@ -100,7 +100,7 @@ def seq_resume(F):
     out = []
     # (a) per entry: max_wal_seq is raised to entry.seq_no iff entry.seq_no > max_wal_seq
     E_ = r"\(\(\{call <IntoIter<WalEntry> as Iterator>::next\} as Some\)\.0: persistence::WalEntry\)\}\.%d: u64\)"
-    MAXRX = r"^alt\(.*\.%d: u64\) \| alt\(\(_\d+\.%d: u64\) \| const 0_u64\) \| const 0_u64\)$" % (ix["seq"], ix["snap"])
+    MAXRX = r"^alt\(.*\.%d: u64\) \| (alt\(\(_\d+\.%d: u64\) \| const 0_u64\) \| )?const 0_u64\)$" % (ix["seq"], ix["snap"])
     atoms = [("seq", E_ % ix["seq"]), ("maxseq", MAXRX)]
     start = Arm(r"^discr\(call <IntoIter<WalEntry> as Iterator>::next\)$", {"1"}, name="next WAL entry")
     outcomes = {"raise": stmt(r"^%s = move _\d+;$" % mx, name="max_wal_seq = entry.seq_no"), "apply": r"^discr\(.*: persistence::WalOp\)\)$",
@@ -121,6 +121,13 @@ def seq_resume(F):
                 ok = bool(re.search(E_ % ix["seq"], src)) or bool(re.search(r"\.%d: u64\)( \| const 0_u64\))?$" % ix["snap"], src))
                 out.append(Result("holds" if ok else "violated", ("max_wal_seq <- %s" % src[:80]) if ok else "max_wal_seq is raised to `%s`, expected entry.seq_no or snapshot.last_wal_seq" % src[:120],
                                   sample={"fn": rn, "kind": "PROVENANCE", "site": "bb%d" % b.idx, "value": src[:120]}))
+    srcs = [r_.sample.get("value", "") for r_ in out if r_.sample and r_.sample.get("kind") == "PROVENANCE" and "value" in r_.sample]
+    has_snap = any(re.search(r"\.%d: u64\)( \| const 0_u64\))?$" % ix["snap"], v) for v in srcs)
+    has_entry = any(re.search(E_ % ix["seq"], v) for v in srcs)
+    out.append(Result("holds" if (has_snap and has_entry) else "violated",
+                      "max_wal_seq folds in both the snapshot's last_wal_seq and every entry's seq_no" if (has_snap and has_entry) else
+                      "max_wal_seq no longer takes %s into account: after a snapshot that emptied the WAL the recovered counter restarts below snapshot.last_wal_seq and later acknowledged writes are skipped as 'covered' on the next restart"
+                      % ("the snapshot's last_wal_seq" if not has_snap else "the entries' seq_no"), sample={"fn": rn, "kind": "PROVENANCE", "max_wal_seq_sources": [v[:80] for v in srcs]}))
     # (c) the counter resumes at max_wal_seq + 1
     news = [b for b in fn.blocks.values() if not b.cleanup and b.kind == "call" and re.search(r"Atomic::<u64>::new$", MF_short(b.callee))]
     adds = [b for b in fn.blocks.values() if not b.cleanup and b.kind == "call" and re.search(r"impl u64>::saturating_add$", MF_short(b.callee))]
